@@ -164,3 +164,15 @@ asm aarch64_be "" aarch64eb_ldst '
  ldrsb x3, [sp, #3]
  add sp, sp, #16
  ret'
+# sub-register updates of the stack pointer (upper half cleared): the offset must become unknown
+asm x86_64 "" amd64_esp '
+ push %rbx
+ sub $8, %esp
+ add $8, %rsp
+ pop %rbx
+ ret'
+asm aarch64 "" aarch64_wsp '
+ sub sp, sp, #32
+ add wsp, wsp, #16
+ add sp, sp, #16
+ ret'
